@@ -9,6 +9,7 @@ import (
 	"runtime"
 	"sync"
 	"sync/atomic"
+	"time"
 
 	"github.com/nspcc-dev/neo-go/pkg/crypto/keys"
 	"github.com/nspcc-dev/neo-go/pkg/vm"
@@ -41,6 +42,37 @@ type MultisigCase struct {
 	Procs []int     `json:"procs"`
 	Reps  int       `json:"reps"`
 	Noise int       `json:"noise"`
+	// BadKeys: positions of the key list holding bytes that are NOT a public key (the system call hands the key list to
+	// CheckMultisigPar undecoded, a script can put anything there). Kind: 0 empty, 1 32 bytes, 2 prefix 04 on 33 bytes,
+	// 3 a 33-byte string with a good prefix whose x is not on the curve, 4 34 bytes.
+	BadKeys []BadKey `json:"bad_keys,omitempty"`
+}
+
+type BadKey struct {
+	Pos  int `json:"pos"`
+	Kind int `json:"kind"`
+}
+
+func badKeyBytes(kind int, good []byte) []byte {
+	switch ((kind % 5) + 5) % 5 {
+	case 0:
+		return []byte{}
+	case 1:
+		return bytes.Clone(good[:32])
+	case 2:
+		return append([]byte{4}, good[1:]...)
+	case 3:
+		// x = 5 has no point on P-256 with either prefix? keep searching from a fixed start: first x without a square root
+		for x := byte(1); ; x++ {
+			b := make([]byte, 33)
+			b[0], b[32] = 2, x
+			if _, err := keys.NewPublicKeyFromBytes(b, elliptic.P256()); err != nil {
+				return b
+			}
+		}
+	default:
+		return append(bytes.Clone(good), 0)
+	}
 }
 
 const poolSize = 3
@@ -106,6 +138,11 @@ func genMultisigCase(t *rapid.T) MultisigCase {
 			if c.Sigs[i].Kind == "badlen" {
 				c.Sigs[i].Arg = rapid.SampledFrom([]int{0, 1, 63, 65, 128}).Draw(t, "blen")
 			}
+		}
+	}
+	if rapid.IntRange(0, 3).Draw(t, "withbad") == 0 {
+		for k := rapid.IntRange(1, 2).Draw(t, "nbad"); k > 0; k-- {
+			c.BadKeys = append(c.BadKeys, BadKey{Pos: rapid.IntRange(0, n-1).Draw(t, "badpos"), Kind: rapid.IntRange(0, 4).Draw(t, "badkind")})
 		}
 	}
 	c.Procs = rapid.SliceOfNDistinct(rapid.SampledFrom([]int{1, 2, 3, 4, 8, 16}), 2, 3, func(i int) int { return i }).Draw(t, "procs")
@@ -194,7 +231,7 @@ func existsMatch(v [][]bool, i, j, m, n int) bool {
 
 func checkMultisigCase(c MultisigCase, o *vt.Obs) error {
 	n, m := len(c.Keys), len(c.Sigs)
-	// preconditions of the only production caller (ECDSASecp256r1CheckMultisig): 1 <= m <= n, keys decodable
+	// preconditions of the only production caller (ECDSASecp256r1CheckMultisig): 1 <= m <= n (the keys arrive undecoded)
 	if n < 1 || m < 1 || m > n || n > 16 {
 		return fmt.Errorf("case: need 1 <= m <= n <= 16, got m=%d n=%d", m, n)
 	}
@@ -203,6 +240,14 @@ func checkMultisigCase(c MultisigCase, o *vt.Obs) error {
 	for j, k := range c.Keys {
 		pkeys[j] = bytes.Clone(poolPub[((k%poolSize)+poolSize)%poolSize])
 	}
+	bad := make([]bool, n)
+	for _, b := range c.BadKeys {
+		if b.Pos >= 0 && b.Pos < n {
+			pkeys[b.Pos] = badKeyBytes(b.Kind, poolPub[((c.Keys[b.Pos]%poolSize)+poolSize)%poolSize])
+			bad[b.Pos] = true
+		}
+	}
+	baseGoroutines := runtime.NumGoroutine()
 	sigs := make([][]byte, m)
 	v := make([][]bool, m)
 	invalidMiddle, allIndividuallyMatchable := false, true
@@ -215,7 +260,7 @@ func checkMultisigCase(c MultisigCase, o *vt.Obs) error {
 		v[i] = make([]bool, n)
 		any := false
 		for j, k := range c.Keys {
-			v[i][j] = valid && ((s.Signer%poolSize)+poolSize)%poolSize == ((k%poolSize)+poolSize)%poolSize
+			v[i][j] = valid && !bad[j] && ((s.Signer%poolSize)+poolSize)%poolSize == ((k%poolSize)+poolSize)%poolSize
 			any = any || v[i][j]
 		}
 		if !any {
@@ -256,25 +301,53 @@ func checkMultisigCase(c MultisigCase, o *vt.Obs) error {
 		}()
 	}
 	prev := runtime.GOMAXPROCS(0)
-	defer func() {
-		stop.Store(true)
-		wg.Wait()
-		runtime.GOMAXPROCS(prev)
-	}()
+	restored := false
+	restore := func() {
+		if !restored {
+			restored = true
+			stop.Store(true)
+			wg.Wait()
+			runtime.GOMAXPROCS(prev)
+		}
+	}
+	defer restore()
 	// A saved case is replayed without rapid; scheduling is not part of the case, so a replay repeats much more often.
 	mul := 1
 	if os.Getenv("VERIF_REPLAY") != "" {
 		mul = 40
 	}
 	calls := 0
+	// call runs the checker the way the VM does: a panic (an undecodable key) is a FAULT of the script
+	call := func() (res bool, fault any) {
+		defer func() { fault = recover() }()
+		return vm.CheckMultisigPar(elliptic.P256(), digest[:], pkeys, sigs), nil
+	}
+	first, faults := "", 0
 	for _, p := range c.Procs {
 		if p < 1 || p > 64 {
 			continue
 		}
 		runtime.GOMAXPROCS(p)
 		for r := 0; r < c.Reps*mul && r < 8*mul; r++ {
-			got := vm.CheckMultisigPar(elliptic.P256(), digest[:], pkeys, sigs)
+			got, fault := call()
 			calls++
+			outcome := fmt.Sprint(got)
+			if fault != nil {
+				outcome = "FAULT"
+				faults++
+			}
+			if first == "" {
+				first = outcome
+			} else if outcome != first {
+				return fmt.Errorf("CheckMultisigPar gives %s and %s for the same arguments (GOMAXPROCS=%d, repetition %d, noise %d; keys %v, bad %v, sigs %s): the verdict depends on the scheduling",
+					first, outcome, p, r, c.Noise, c.Keys, c.BadKeys, fmtSigs(c.Sigs))
+			}
+			if fault != nil {
+				if len(c.BadKeys) == 0 {
+					return fmt.Errorf("CheckMultisigPar panics with decodable keys: %v (keys %v, sigs %s)", fault, c.Keys, fmtSigs(c.Sigs))
+				}
+				continue
+			}
 			if got != want {
 				return fmt.Errorf("CheckMultisigPar = %v, sequential matcher = %v (GOMAXPROCS=%d, repetition %d, noise %d; keys %v, sigs %s)",
 					got, want, p, r, c.Noise, c.Keys, fmtSigs(c.Sigs))
@@ -292,6 +365,25 @@ func checkMultisigCase(c MultisigCase, o *vt.Obs) error {
 		}
 	}
 	o.Units(calls)
+	// nothing may be left behind, FAULT or not: the workers of every call have to end (bounded wait, no time oracle
+	// beyond "eventually within 5 s")
+	restore()
+	for i := 0; runtime.NumGoroutine() > baseGoroutines; i++ {
+		if i > 500 {
+			return fmt.Errorf("%d goroutines before %d calls of CheckMultisigPar (%d of them FAULTs), %d five seconds after the last one returned: workers are left behind (keys %v, bad %v, sigs %s)",
+				baseGoroutines, calls, faults, runtime.NumGoroutine(), c.Keys, c.BadKeys, fmtSigs(c.Sigs))
+		}
+		time.Sleep(10 * time.Millisecond)
+	}
+	if len(c.BadKeys) > 0 {
+		o.Label("bad-key")
+		if faults > 0 {
+			o.Label("bad-key-fault")
+		} else {
+			o.Label("bad-key-not-reached")
+		}
+		o.NonTrivial()
+	}
 
 	repeated := false
 	seen := map[int]bool{}
